@@ -54,10 +54,10 @@ func fail(format string, a ...interface{}) {
 	os.Exit(2)
 }
 
-// tryIntFunc translates one int-only function; when its shape is outside what intFunc
-// understands the result is a stub without the definition (the equality proof that needs it
-// then fails to build, which is reported for the property it belongs to only).
-func tryIntFunc(repo, file, name string) (out string) {
+// tryGemFunc translates one function with the typed translation of gemfunc.go; when its shape
+// is outside the translated fragment the result is a stub without the definition (the equality
+// proof that needs it then fails to build, which is reported for the property it belongs to only).
+func tryGemFunc(u *gemUnit, name string) (out string) {
 	softFail = true
 	defer func() {
 		softFail = false
@@ -70,7 +70,10 @@ func tryIntFunc(repo, file, name string) (out string) {
 			out = fmt.Sprintf("(* NOT TRANSLATED: %s: %s *)\nDefinition go_%s_not_translated : unit := tt.\n", name, strings.ReplaceAll(string(e), "*)", "* )"), name)
 		}
 	}()
-	return intFunc(repo, file, name)
+	before := len(u.defs)
+	u.translate(name)
+	out = strings.Join(u.defs[before:], "\n")
+	return out
 }
 
 func intLit(e ast.Expr) (int64, bool) {
@@ -481,11 +484,48 @@ func main() {
 	}
 	u.WriteString("].\n")
 	writeIfChanged(filepath.Join(*out, "Upper.v"), u.String())
-	// integer-only functions translated statement by statement
-	var fn strings.Builder
-	fn.WriteString("(* GENERATED by /verif/translator from internal/util/util.go. Do not edit. *)\n")
-	fn.WriteString("From Coq Require Import ZArith Bool.\nOpen Scope Z_scope.\n\n")
-	fn.WriteString(tryIntFunc(*repo, filepath.Join("internal", "util", "util.go"), "RangeToIndexes"))
-	writeIfChanged(filepath.Join(*out, "Funcs.v"), fn.String())
+	// loop-free functions over int, string, gem.String, Options and Editor (gemfunc.go); one
+	// generated file per group, so that a function outside the translated fragment only stops
+	// the proofs of its own group (and so only the property those belong to)
+	groups := []struct {
+		out, src string
+		fns      []string
+	}{
+		{"Funcs.v", filepath.Join("internal", "util", "util.go"), []string{"RangeToIndexes"}},
+		{"GemAlign.v", filepath.Join("internal", "manip", "manip.go"), []string{"CountLeadingWhitespace", "CountTrailingWhitespace", "AlignLineLeft", "AlignLineRight", "AlignLineCenter"}},
+		{"GemOpts.v", "options.go", []string{"WithDefaults"}},
+		{"GemEdit.v", "operations.go", []string{"Insert", "Delete", "Overtype"}},
+		{"GemChars.v", "subeditor.go", []string{"CharsFrom", "CharsTo"}},
+		{"GemLines.v", "subeditor.go", []string{"LinesFrom", "LinesTo"}},
+	}
+	for _, g := range groups {
+		var gf strings.Builder
+		gf.WriteString("(* GENERATED by /verif/translator from " + g.src + ". Do not edit. *)\n")
+		gf.WriteString("From Coq Require Import ZArith Bool List.\nImport ListNotations.\n")
+		gf.WriteString("From Rosed Require Import Base.Res Base.ListX Base.Utf8 Gem.Segment Gem.GString Model.Manip Model.Options Model.Editor Inst.GoRt gen.Consts.\n")
+		gf.WriteString("Open Scope Z_scope.\nOpen Scope bool_scope.\n\nSection GoGemFuncs.\nContext `{Classifier}.\n\n")
+		u := newGemUnit(*repo, g.src)
+		for _, n := range g.fns {
+			gf.WriteString(tryGemFunc(u, n))
+			gf.WriteString("\n")
+		}
+		gf.WriteString("End GoGemFuncs.\n")
+		// helpers translated on demand (functions a maintainer has extracted) are unfolded by the
+		// proof scripts without being named there
+		entry := map[string]bool{}
+		for _, n := range g.fns {
+			entry["go_"+n] = true
+		}
+		var helpers []string
+		for _, n := range u.names {
+			if !entry[n] {
+				helpers = append(helpers, n)
+			}
+		}
+		if len(helpers) > 0 {
+			gf.WriteString("\n#[export] Hint Unfold " + strings.Join(helpers, " ") + " : go_defs.\n")
+		}
+		writeIfChanged(filepath.Join(*out, g.out), gf.String())
+	}
 	fmt.Printf("translator: %d predicates, %d intervals\n", len(predOrder), total)
 }
